@@ -248,10 +248,6 @@ def run(ctx, prop):
             ctx.ob(prop + ".witness", w, cf_ok and twin_ok, "compile_fail witness %s, compiling twin %s" % (
                 "rejected by rustc as expected" if cf_ok else "NOT rejected", "compiles" if twin_ok else "does NOT compile"),
                 key="%s.witness|%s" % (prop, w))
-    if prop == "C16":
-        ctx.rule("C16.macros", "every form of polygon! / multipatch! expands to the ring-closing constructors (resolved callees of "
-                               "the expansion in the witness crate)", floor=8)
-        witness.macro_witnesses(ctx, "C16.macros")
     # (b) sweeps
     sweeps(ctx, prop)
     # (c) teeth
